@@ -17,6 +17,7 @@
     related to `anc(a,b)`, `anc(a,c)`, and `exhausted`.
 -/
 import PrologVerif.Proofs.Refine
+import PrologVerif.Proofs.RefineExamples4
 namespace PrologVerif.Refine.Example
 open PrologVerif PrologVerif.Refine
 
@@ -372,83 +373,5 @@ example (f1 : Nat) (as1 : List Term) (e1 : VM.End)
 /-- a disjunctive query -/
 example : CtlFrag progE (disj (q (v 0)) (eq (v 0) (.atom "z"))) :=
   ⟨fragE1.clauses, by decide +kernel, by decide +kernel, (fun _ h => by cases h), by decide +kernel⟩
-
-/-! ## stage 4a: `call/N`, 2 ≤ N ≤ 8
-
-      p(a).  p(b).  r(a, 1).  r(b, 2).
-      twice(G, X) :- call(G, X).             % the closure is a variable of the clause
-      both(X, Y) :- call(r, X, Y).           % call/3
-      ?- twice(p, X).        two answers a, b          (the goal built: p(X))
-      ?- twice(r(b), X).     one answer 2              (the goal built: r(b, X))
-      ?- both(X, Y).         two answers
-      ?- twice(3, X).        type_error(callable, 3)   ?- twice(G, X).   instantiation_error
-
-  (`#eval Driver.C01.vmLine` = `specLine … false` on all five.) -/
-
-def r2 (a b : Term) : Term := .app "r" (.cons a (.cons b .nil))
-def r1 (a : Term) : Term := .app "r" (.cons a .nil)
-def twice (a b : Term) : Term := .app "twice" (.cons a (.cons b .nil))
-def both (a b : Term) : Term := .app "both" (.cons a (.cons b .nil))
-def call2 (a b : Term) : Term := .app "call" (.cons a (.cons b .nil))
-def call3 (a b c : Term) : Term := .app "call" (.cons a (.cons b (.cons c .nil)))
-
-def progT : List Term :=
-  [p (.atom "a"), p (.atom "b"), r2 (.atom "a") (.int 1), r2 (.atom "b") (.int 2),
-   SLD.rule (twice (v 0) (v 1)) (call2 (v 0) (v 1)),
-   SLD.rule (both (v 0) (v 1)) (call3 (.atom "r") (v 0) (v 1))]
-
-theorem fragT1 : CallNFrag progT (twice (.atom "p") (v 0)) :=
-  ⟨by decide +kernel, by decide +kernel, by decide +kernel, (fun _ h => by cases h), by decide +kernel⟩
-
-theorem sldT1 : SLD.solveQuery 40 progT (twice (.atom "p") (v 0)) 5 =
-    some ([twice (.atom "p") (.atom "a"), twice (.atom "p") (.atom "b")], .exhausted) := by decide +kernel
-
-theorem sldT2 : SLD.solveQuery 40 progT (twice (r1 (.atom "b")) (v 0)) 5 =
-    some ([twice (r1 (.atom "b")) (.int 2)], .exhausted) := by decide +kernel
-
-theorem sldT3 : SLD.solveQuery 40 progT (both (v 0) (v 1)) 5 =
-    some ([both (.atom "a") (.int 1), both (.atom "b") (.int 2)], .exhausted) := by decide +kernel
-
-theorem sldT4 : SLD.solveQuery 40 progT (twice (.int 3) (v 0)) 5 =
-    some ([], .err (SLD.mk2 "type_error" (.atom "callable") (.int 3))) := by decide +kernel
-
-/-- `twice(p, X)`: the goal `p(X)` is built at run time from the closure `p` and the argument `X` -/
-example (f1 : Nat) (as1 : List Term) (e1 : VM.End)
-    (h1 : VM.runQuery f1 progT (Driver.C01.shiftVars 10 (twice (.atom "p") (v 0))) 5 = some (as1, e1))
-    (hcalls : CallsOK true f1 progT (twice (.atom "p") (v 0)) 5) :
-    Forall2 (AnsRel (Driver.C01.shiftVars 10 (twice (.atom "p") (v 0)))) as1
-      [twice (.atom "p") (.atom "a"), twice (.atom "p") (.atom "b")] ∧ endAgree e1 .exhausted :=
-  vm_refines_sld_callN progT _ 5 fragT1 (by decide) f1 40 as1 _ e1 _ h1 sldT1 hcalls
-
-/-- a closure with an argument of its own: `call(r(b), X)` calls `r(b, X)` -/
-example (f1 : Nat) (as1 : List Term) (e1 : VM.End)
-    (h1 : VM.runQuery f1 progT (Driver.C01.shiftVars 10 (twice (r1 (.atom "b")) (v 0))) 5 = some (as1, e1))
-    (hcalls : CallsOK true f1 progT (twice (r1 (.atom "b")) (v 0)) 5) :
-    Forall2 (AnsRel (Driver.C01.shiftVars 10 (twice (r1 (.atom "b")) (v 0)))) as1
-      [twice (r1 (.atom "b")) (.int 2)] ∧ endAgree e1 .exhausted :=
-  vm_refines_sld_callN progT _ 5
-    ⟨fragT1.clauses, by decide +kernel, by decide +kernel, (fun _ h => by cases h), by decide +kernel⟩
-    (by decide) f1 40 as1 _ e1 _ h1 sldT2 hcalls
-
-/-- call/3 -/
-example (f1 : Nat) (as1 : List Term) (e1 : VM.End)
-    (h1 : VM.runQuery f1 progT (Driver.C01.shiftVars 10 (both (v 0) (v 1))) 5 = some (as1, e1))
-    (hcalls : CallsOK true f1 progT (both (v 0) (v 1)) 5) :
-    Forall2 (AnsRel (Driver.C01.shiftVars 10 (both (v 0) (v 1)))) as1
-      [both (.atom "a") (.int 1), both (.atom "b") (.int 2)] ∧ endAgree e1 .exhausted :=
-  vm_refines_sld_callN progT _ 5
-    ⟨fragT1.clauses, by decide +kernel, by decide +kernel, (fun _ h => by cases h), by decide +kernel⟩
-    (by decide) f1 40 as1 _ e1 _ h1 sldT3 hcalls
-
-/-- a closure that is not callable: no answer, both sides end with the same type error -/
-example (f1 : Nat) (as1 : List Term) (e1 : VM.End)
-    (h1 : VM.runQuery f1 progT (Driver.C01.shiftVars 10 (twice (.int 3) (v 0))) 5 = some (as1, e1))
-    (hcalls : CallsOK true f1 progT (twice (.int 3) (v 0)) 5) :
-    as1 = [] ∧ endAgree e1 (.err (SLD.mk2 "type_error" (.atom "callable") (.int 3))) := by
-  obtain ⟨hfa, hend⟩ := vm_refines_sld_callN progT _ 5
-    ⟨fragT1.clauses, by decide +kernel, by decide +kernel, (fun _ h => by cases h), by decide +kernel⟩
-    (by decide) f1 40 as1 _ e1 _ h1 sldT4 hcalls
-  cases hfa
-  exact ⟨rfl, hend⟩
 
 end PrologVerif.Refine.Example
